@@ -718,6 +718,15 @@ func C10(run *core.Run) {
 				report(c, "does not return: watchdog (25 s) expired twice, the second time alone in a fresh process ("+map[string]string{"blocked": "every goroutine of the case is parked in a blocking primitive with an unchanging stack", "busy": "the process burnt at least 15 s of CPU meanwhile", "": "state unknown"}[rs[0].bad]+")")
 			} else if rs[0].state == "crash" {
 				report(c, "the process died (fatal error): "+rs[0].bad)
+			} else if rs[0].state == "" && rs[0].bad != "" {
+				report(c, rs[0].bad)
+			} else if rs[0].state == "" && c.Family != "" {
+				// an amplifier that expired next to its batch mates but returns alone: its CPU time, measured alone, still
+				// feeds the scaling monitor (a slow 16n step is exactly what that monitor is for)
+				t := fam[c.Family]
+				t[c.Size] = rs[0].cpu
+				fam[c.Family] = t
+				run.Count("amplifier_measured_alone_after_an_expiry")
 			} else {
 				run.Inconclusive()
 			}
@@ -739,10 +748,17 @@ func C10(run *core.Run) {
 	scaling := map[string]string{}
 	for f, t := range fam {
 		scaling[f] = fmt.Sprintf("%v %v %v", t[0], t[1], t[2])
-		if t[1] < 8*time.Millisecond || t[2] == 0 {
+		lo, hi := 1, 2
+		if t[2] == 0 && t[0] >= 4*time.Millisecond {
+			// the largest size gave no measurement (its watchdog expired and the confirmation was starved or undecided):
+			// the step from n to 4n is judged instead, by the same rule
+			lo, hi = 0, 1
+			run.Count("scaling_judged_on_the_first_step")
+		}
+		if t[hi] < 8*time.Millisecond || t[lo] == 0 || (lo == 1 && t[1] < 8*time.Millisecond) {
 			continue // too fast to measure
 		}
-		ratio := float64(t[2]) / float64(t[1])
+		ratio := float64(t[hi]) / float64(t[lo])
 		if ratio > 10 {
 			// confirm in a fresh process
 			var cs []C10Case
@@ -751,8 +767,11 @@ func C10(run *core.Run) {
 					cs = append(cs, c)
 				}
 			}
+			if lo == 0 {
+				cs = cs[:2] // without the size that does not come back in time
+			}
 			rs := c10RunBatch(scratch, 5000+len(scaling), cs)
-			if len(rs) == 3 && rs[1].cpu >= 8*time.Millisecond && float64(rs[2].cpu)/float64(rs[1].cpu) > 10 {
+			if len(rs) == len(cs) && len(rs) > hi && rs[hi].cpu >= 8*time.Millisecond && rs[lo].cpu > 0 && float64(rs[hi].cpu)/float64(rs[lo].cpu) > 10 {
 				if (f == "js-vars" || f == "js-manyvars") && run.KnownSignature("js-var-declarations-quadratic") {
 					continue
 				}
@@ -762,7 +781,8 @@ func C10(run *core.Run) {
 				if f == "html-endtags" && run.KnownSignature("html-trailing-space-lookahead-quadratic") {
 					continue
 				}
-				report(cs[2], fmt.Sprintf("super-linear cost: CPU time %v, %v, %v for sizes n, 4n, 16n (confirmed in a fresh process: %v, %v, %v)", t[0], t[1], t[2], rs[0].cpu, rs[1].cpu, rs[2].cpu))
+				last := rs[len(rs)-1].cpu
+				report(cs[len(cs)-1], fmt.Sprintf("super-linear cost: CPU time %v, %v, %v for sizes n, 4n, 16n (confirmed in a fresh process: %v, %v, %v; judged on the step %d->%d)", t[0], t[1], t[2], rs[0].cpu, rs[1].cpu, last, lo, hi))
 			} else {
 				run.Inconclusive()
 			}
